@@ -182,6 +182,39 @@ def fft_coefs(R, r, N):
 
 def run(ck):
     logging.disable(logging.WARNING)
+    ck.rule = ('tables: every node family x quadrature type x M=1..7 and every RK class of the two modules; runs: seeded (family, type, M, '
+               'sweeper, QDelta name, end-point mode, sweep mode) configurations x k = 1..min(p+2, K) iterations + every RK class; '
+               'a case is one (configuration, k) run of the real controller or one validated table; distinct by that tuple; '
+               'non-trivial when M >= 2 or the class has >= 2 stages')
+    if os.environ.get('C04_SKIP_BUILD'):      # self-test (mutation runs) only
+        ck.build = lambda: (True, '')
+    ck.check_props(required=['C04_neumann_expansion', 'C04_stability_expansion', 'C04_order_gain_series', 'C04_order_gain',
+                             'C04_error_propagation', 'C04_check_order_sound', 'C04_check_embedded_sound',
+                             'C04_check_order_imex_sound', 'C04_dsdc_coefs_sound'])
+
+    # report at most three violations per kind in full; the rest is counted in one summary violation per kind
+    counts = {}
+    raw_violation = ck.violation
+
+    def limited(what, replay, match=None, no_input=False):
+        kind = (match or {}).get('kind', '?')
+        counts.setdefault(kind, []).append(what)
+        if len(counts[kind]) <= 3:
+            return raw_violation(what, replay, match=match, no_input=no_input)
+        return False
+
+    ck.violation = limited
+    try:
+        _run(ck)
+    finally:
+        ck.violation = raw_violation
+    for kind, whats in sorted(counts.items()):
+        if len(whats) > 3:
+            ck.violation('%d violations of kind %s in total (first three reported individually)' % (len(whats), kind),
+                         {'kind': kind, 'count': len(whats), 'all': whats[:80]}, match={'kind': kind, 'summary': True})
+
+
+def _run(ck):
     from pySDC.core.collocation import CollBase
     from pySDC.implementations.problem_classes.TestEquation_0D import testequation0d
     from pySDC.implementations.controller_classes.controller_nonMPI import controller_nonMPI
@@ -193,16 +226,6 @@ def run(ck):
     imex_dahlquist = imex_dahlquist_factory.get()
     rng = ck.rng
     thorough = ck.tier == 'thorough'
-    ck.rule = ('tables: every node family x quadrature type x M=1..7 and every RK class of the two modules; runs: seeded (family, type, M, '
-               'sweeper, QDelta name, end-point mode, sweep mode) configurations x k = 1..min(p+2, K) iterations + every RK class; '
-               'a case is one (configuration, k) run of the real controller or one validated table; distinct by that tuple; '
-               'non-trivial when M >= 2 or the class has >= 2 stages')
-    if os.environ.get('C04_SKIP_BUILD'):      # self-test (mutation runs) only
-        ck.build = lambda: (True, '')
-    ck.check_props(required=['C04_neumann_expansion', 'C04_stability_expansion', 'C04_order_gain_series', 'C04_order_gain',
-                             'C04_error_propagation', 'C04_check_order_sound', 'C04_check_embedded_sound',
-                             'C04_check_order_imex_sound', 'C04_dsdc_coefs_sound'])
-
     tol = dy_lit(TOL_TABLE)
     files = {}
 
@@ -637,7 +660,7 @@ def run(ck):
         base = {'call': 'controller_nonMPI.run with sweeper_class=%s on the Dahlquist equation' % d['name'], 'class': d['name'], 'radius': r}
         try:
             if d['imex']:
-                N2 = 16
+                N2 = 32
                 th = 2 * np.pi * np.arange(N2) / N2
                 zI = (r * np.exp(1j * th))[:, None] * np.ones(N2)[None, :]
                 zE = np.ones(N2)[:, None] * (r * np.exp(1j * th))[None, :]
